@@ -99,3 +99,8 @@ vf_f64 vf_c_strtod(char *s, char *endp) {
   if (endp) *(char **)endp = e;
   return val;
 }
+/* locale-independent variants used by fmt::Locale::strtod */
+static char vf_locale_obj[8];
+char *vf_c_newlocale(u32 mask, char *name, char *base) { return vf_locale_obj; }
+void vf_c_freelocale(char *loc) { }
+vf_f64 vf_c_strtod_l(char *s, char *endp, char *loc) { return vf_c_strtod(s, endp); }
